@@ -64,7 +64,7 @@ TRUSTED = ['Coq 8.16.1 kernel (coqc; coqchk in the thorough tier); no axioms (Pr
            'harness/ctrl/src/dom.rs: fake MetaDataBroker / MetaManipulationBroker / RedisClientFactory (fault injection), fake Redis, canonical forms of a view and of UMCTL INFO / INFOREPL',
            'hooks: undermoon::coordinator::verif (H2), undermoon::broker::verif (H1)',
            'Model/CtrlFail.v runs on the broker model of Model/Broker.v (its correspondence with broker/update.rs is the C18 / C06 checks\'); replacement choices and cluster allocation pairs are read from the real store',
-           'textual pins: http_mani_broker.rs treats 404 as Ok; service.rs maps MigrationTaskNotFound to 404; core.rs pushes dst before src and aborts on `?`; sync.rs sends SETREPL before SETCLUSTER and treats OLD_EPOCH as success']
+           'textual pins (only for the HTTP layer, which the harness replaces by a fake and therefore never executes): http_mani_broker.rs treats 404 as Ok; service.rs maps MigrationTaskNotFound to 404. Every other formerly pinned fact is observed by execution (PROBED_FACTS in this file), incl. the production CoordinatorService wiring through the `service` probe cases']
 
 KINDS = ['drop', 'dup', 'delay', 'noreply', 'crash']
 
@@ -207,6 +207,9 @@ def gen_cases(chk):
     cases.append(('corpus', shape_a({27: 'noreply'}, [])))
     cases.append(('corpus', shape_a({30: 'delay', 31: 'delay'}, [], tail_extra=['replay 30', 'replay 31'])))
     cases.append(('corpus', shape_b({14: 'noreply', 20: 'delay', 23: 'crash'}, [(30, 'replay', 20)], 2)))
+    # wiring probes: the production CoordinatorService (service.rs gen_* + loops) runs over the fakes
+    cases.append(('service-probe', 'C07 4 - - ; ' + SHAPE_A_PRE + ' ; service 2400'))
+    cases.append(('service-probe', 'C07F 5 - - ; ' + FAIL_PRE + ' ; down %d ; detect 1 ; service 2600' % (1 + r.randrange(5))))
     for line in membership_recovery_cases():
         cases.append(('membership-recovery', line))
     for held in (1, 2):
@@ -345,6 +348,9 @@ def served_table(prog):
 def monitor(case, prog, segs, z):
     """The property on what the implementation did. Returns a list of failure descriptions."""
     bad = []
+    if 'svcst' in z:
+        # what the production CoordinatorService did in a `service` step is judged like one more round
+        segs = segs + ['S tr=%s st=%s pend=%s nc=%s' % (z.get('svctr', '-'), z['svcst'], z.get('svcpend', '-'), z.get('svcnc', '0'))]
     rows = served_table(prog)
     # hypotheses of the theorems, tested on the real broker history
     by_a = {}
@@ -437,6 +443,25 @@ def monitor(case, prog, segs, z):
                 bad.append('migration %s reported finished during the fault-free tail: %d successful commits' % (k, commits_ok.get(k, 0)))
     if z.get('fm', '-') not in ('-', 'done'):
         bad.append('set-up: the real migration handshake did not finish (%s)' % z.get('fm'))
+    if 'svcst' in z:
+        if 'finishmig' in case and (z.get('svcpend') != '-' or z.get('svcnc') != '2'):
+            bad.append('the production coordinator service left finished migrations uncommitted (pending %s, %s commits)' % (z.get('svcpend'), z.get('svcnc')))
+        if case.startswith('C07F'):
+            dn = re.findall(r'; down (\d+)', case)
+            for a_ in dn:
+                if 'a.7.%s.' % a_ not in z.get('svctr', ''):
+                    bad.append('the production detector did not report the down proxy %s under its reporter id' % a_)
+                if a_ not in z.get('failed', '').split(','):
+                    bad.append('the production failure handler did not fail over proxy %s although two coordinators reported it' % a_)
+    # a round in which no call was faulted and every proxy is reachable ends without error (OLD_EPOCH replies are not errors)
+    if 'quiet' in case:
+        stp_ = [x.strip().split(' ')[0] for x in prog.split(' ; P ')[1].split(' | ')]
+        rw = [x for x in z.get('rounds', '-').split(',') if x in ('0', '1')]
+        rsteps = [j for j, x in enumerate(stp_) if x in ('meta', 'mig', 'detect', 'handle')]
+        q = max(j for j, x in enumerate(stp_) if x == 'quiet')
+        for j, w_ in zip(rsteps, rw):
+            if j > q and w_ != '1':
+                bad.append('the fault-free round at step %d ended with an error' % j)
     if z.get('cmis', 'ok') != 'ok':
         bad.append('the broker accepted a commit for a (ranges, epoch) that was not the pending entry it removed, or a rejected commit changed the '
                    'pending set: %s' % z.get('cmis'))
@@ -451,7 +476,7 @@ def monitor(case, prog, segs, z):
         for j, sg in enumerate(segs):
             d = kv(sg)
             stp = steps[j].split(' ') if j < len(steps) else ['?']
-            T = int(d['T']) if 'T' in d and d['T'].lstrip('-').isdigit() else None
+            T = int(d['T']) if 'T' in d and d['T'].lstrip('-').isdigit() else (reports[-1][0] if reports else 0)
             if stp[0] == 'adv' and 'reg' in stp:
                 a = int(stp[stp.index('reg') + 1])
                 if a in registered:
@@ -488,22 +513,31 @@ def monitor(case, prog, segs, z):
     return bad
 
 
+# Textual pins are kept ONLY for facts the harness cannot observe by running the code: the HTTP layer between coordinator and broker is
+# replaced by a fake (FakeBroker::commit_migration / http_class in harness/ctrl) that mirrors the status mapping below, so that mapping is
+# never executed here.  Every other fact that used to be pinned is now observed behaviourally (see PROBED_FACTS).
 PINS = [
     ('/repo/src/coordinator/http_mani_broker.rs', r'status\.is_success\(\)\s*\|\|\s*status\.as_u16\(\)\s*==\s*404', 'commit_migration: 200 and 404 are Ok'),
     ('/repo/src/broker/service.rs', r'MetaStoreError::MigrationTaskNotFound\s*=>\s*http::StatusCode::NOT_FOUND', 'MigrationTaskNotFound -> 404'),
-    ('/repo/src/coordinator/core.rs', r'Self::set_cluster_meta\(dst_address, meta_retriever, sender\)\.await\?;\s*Self::set_cluster_meta\(src_address, meta_retriever, sender\)\.await\?;',
-     'sync_migration_state: dst then src, each aborting on error'),
-    ('/repo/src/coordinator/sync.rs', r'"SETREPL"\.to_string\(\),[\s\S]{0,200}?\.await\?;[\s\S]{0,600}?"SETCLUSTER"\.to_string\(\)', 'send_meta_impl: SETREPL, `?`, then SETCLUSTER'),
-    ('/repo/src/coordinator/sync.rs', r'if err_str == OLD_EPOCH_REPLY\.as_bytes\(\) \{\s*Ok\(\(\)\)', 'send_meta: OLD_EPOCH is success'),
-    ('/repo/src/coordinator/detector.rs', r'const RETRY: usize = 3;\s*for i in 1\.\.=RETRY \{\s*match self\.ping\(address\.clone\(\)\)\.await \{\s*Ok\(None\) => return Ok\(None\),\s*_ if i == RETRY => return Ok\(Some\(address\)\),\s*_ => continue,',
-     'PingFailureDetector::check_impl: three attempts, alive on the first answer'),
-    ('/repo/src/coordinator/recover.rs', r'self\.mani_broker\s*\.replace_proxy\(proxy_failure\.clone\(\)\)\s*\.map_err\([\s\S]{0,260}?\.map_ok\(move \|new_proxy\| \{\s*info!\(',
-     'ReplaceNodeHandler::handle_proxy_failure: replace_proxy and nothing else (no push to the replacement)'),
-    ('/repo/src/coordinator/service.rs', r'let retriever = BrokerProxiesRetriever::new\(data_broker\.clone\(\)\);\s*let checker = PingFailureDetector::new\(client_factory\);\s*let reporter = BrokerFailureReporter::new\(reporter_id, data_broker\);',
-     'gen_detector is assembled from the parts the harness assembles'),
-    ('/repo/src/coordinator/service.rs', r'BrokerOrderedProxiesRetriever::new\(data_broker\.clone\(\)\);\s*let meta_retriever = BrokerMetaRetriever::new\(data_broker\);\s*let sender = ProxyMetaRespSender::new',
-     'gen_proxy_meta_synchronizer is assembled from the parts the harness assembles'),
 ]
+
+# fact -> the executed cases whose observable outcome (trace / boundary count compared with the model, or a monitor) changes when it is false
+PROBED_FACTS = {
+    'sync_migration_state pushes dst then src and aborts on the first error':
+        'every mig round runs the real function; `order` monitor; single-fault sweep on the dst / src call boundaries (the model predicts which calls follow)',
+    'send_meta_impl sends SETREPL, aborts on error, then SETCLUSTER':
+        'single-fault sweep: a fault on a SETREPL boundary must leave the SETCLUSTER boundary unconsumed (nb and trace compared with the model)',
+    'send_meta treats OLD_EPOCH as success':
+        'single-fault sweep, fault on the source push of the mig round: in the tail mig round the source reports again, the commit answers NotFound, the '
+        'destination answers OLD_EPOCH and the source must still be pushed in the same round (trace + nb compared with the model); also every meta round '
+        'over up-to-date proxies must end Ok (monitor on rounds= of fault-free rounds)',
+    'PingFailureDetector::check_impl tries three times':
+        'every C07F detect round: number of q tokens per proxy and the report after exactly three failures are compared with Model/CtrlFail.v',
+    'ReplaceNodeHandler only calls replace_proxy':
+        'every C07F handle round: the recording FakeBroker / CoordNet see every call the real handler makes; monitor "the handling round sent a call to a proxy"; nb compared with the model',
+    'service.rs assembles detector / synchronizers / handler from the parts the harness assembles':
+        'wiring probes (`service` step): the production CoordinatorService::run drives its own four loops over the fakes; monitors on the resulting state',
+}
 
 
 def check_pins(chk):
@@ -570,7 +604,7 @@ def run(chk):
         if re.search(r'c\.\d+\.ok', o):
             stats['cases_with_migration_commit'] += 1
         reached = [int(x.split(':')[0]) for x in re.findall(r'(?<![M\d])(\d+:[a-z]+)', c.split(';')[0])]
-        nontrivial = kind in ('corpus', 'stale-commit', 'membership-recovery') or any(x < nb for x in reached)
+        nontrivial = kind in ('corpus', 'stale-commit', 'membership-recovery', 'service-probe') or any(x < nb for x in reached)
         if nontrivial and kind != 'corpus':
             stats['faults_reached'] += 1
         chk.count(c, nontrivial)
